@@ -9,6 +9,7 @@ import Pyunicorn.Lemmas.RecurrenceStruct
 import Pyunicorn.Lemmas.RecurrenceNormCols
 import Pyunicorn.Lemmas.RecurrenceDiag
 import Pyunicorn.Lemmas.RecurrenceTies
+import Pyunicorn.Model.RecurrenceAdaptiveObj
 /-!
 # C07 — recurrence matrices are exactly the thresholded distance matrices
 
@@ -1997,6 +1998,138 @@ upper triangle: empty), which is why nothing more than `diagline_dist_lower_only
 example : diaglineDist [[true, false, false], [true, true, false], [false, true, true]] 3 none
       = [0, 2, 0]
     ∧ diaglineAll [[true, false, false], [true, true, false], [false, true, true]] 3 = [0, 1, 0] := by
+  decide +kernel
+
+/-! ## Round 5c: adaptive neighbourhood size at the object level, for every argsort table
+
+`Model/RecurrenceAdaptiveObj.lean`: the `rpx` / `rnx` requests of the driver now run
+`adaptiveObjPlot` / `adaptiveObjNet` (caller's series → `normalize` → embedding → masked
+distances → NumPy's table → kernel → masking block → stride / deletion). -/
+
+/-- **the stored `R` of `RecurrencePlot` / `RecurrenceNetwork` under
+`adaptive_neighborhood_size` is `adaptivePlotMV`** on the state vectors of the stored series,
+for every table; the table test of the driver is `argsortOK` of the matrix the setter sorts;
+the network is `adaptiveNetOf` of that plot -/
+theorem adaptive_object_eq (m : Metric) (series S emb : List (List V)) (norm mv setter : Bool)
+    (e : Option (Nat × Nat)) (kA : Nat) (order : Option (List Nat)) (sn : List (List Nat))
+    (hS : storedSeries series norm = some S) (hE : stateVectors S e = .ok emb) :
+    adaptiveObjPlot m series norm mv e kA order sn = some (adaptivePlotMV m emb kA order sn mv)
+    ∧ adaptiveTableOK m series norm mv e sn = argsortOK (adaptiveDist m emb mv) sn
+    ∧ adaptiveObjNet setter m series norm mv e kA order sn
+        = some ((adaptivePlotMV m emb kA order sn mv).bind fun p =>
+            .ok (adaptiveNetOf setter mv emb p)) := by
+  simp [adaptiveObjPlot, adaptiveTableOK, adaptiveObjNet, objectStates, hS, hE, Res.bind]
+
+/-- **object-level statement for every argsort table** (constructor: `order = none`; setter:
+any caller order of `n` state indices).  Whatever table NumPy returns for the matrix the
+method sorts (`adaptiveTableOK`), the object is built, reports `N` = `M` = number of state
+vectors = side of `R`, and
+* without `missing_values`: `R` is symmetric and for `kA ≤ n − 1` every processed state has
+  ≥ `kA` recurrences, is linked for every `1 ≤ k ≤ kA` to a state at exactly the `k`-th
+  smallest distance of its row, and has ≥ `kA` *other* neighbours when it has no duplicate;
+* with `missing_values`: no state holding a missing value is recurrent with anything, and for
+  `kA ≤ #complete − 1` every processed complete state is recurrent with `kA` pairwise
+  different complete states. -/
+theorem adaptive_object_plot_spec (m : Metric) (series S emb : List (List V)) (norm mv : Bool)
+    (e : Option (Nat × Nat)) (kA : Nat) (order : Option (List Nat)) (sn : List (List Nat))
+    (hS : storedSeries series norm = some S) (hE : stateVectors S e = .ok emb)
+    (hsn : adaptiveTableOK m series norm mv e sn = true)
+    (ho : ∀ o, order = some o → o.length = emb.length ∧ ∀ l ∈ o, l < emb.length) :
+    (mv = false → ∃ R : BM,
+        adaptiveObjPlot m series norm mv e kA order sn
+          = some (.ok ⟨bmTab emb.length R, emb.length, emb.length⟩)
+      ∧ (bmTab emb.length R).length = emb.length
+      ∧ (∀ a b, R a b = R b a)
+      ∧ (kA + 1 ≤ emb.length → ∀ l ∈ order.getD (List.range emb.length),
+          kA ≤ countTrue ((List.range emb.length).map (R l))
+          ∧ (∀ k, 1 ≤ k → k ≤ kA → ∃ c, c < emb.length ∧ R l c = true ∧
+              (sortV (distRow m emb l))[k]? = some (rpEntry m emb l c))
+          ∧ ((∀ c, c < emb.length → c ≠ l →
+                leV (rpEntry m emb l c) (rpEntry m emb l l) = false) →
+              kA ≤ ((List.range emb.length).filter fun c => R l c && (c != l)).length)))
+    ∧ (mv = true → ∃ R : BM,
+        adaptiveObjPlot m series norm mv e kA order sn
+          = some (.ok ⟨maskIf true emb (bmTab emb.length R), emb.length, emb.length⟩)
+      ∧ (maskIf true emb (bmTab emb.length R)).length = emb.length
+      ∧ (∀ i j, missingAt emb i = true ∨ missingAt emb j = true →
+          entry (maskIf true emb (bmTab emb.length R)) i j = none
+          ∨ entry (maskIf true emb (bmTab emb.length R)) i j = some false)
+      ∧ (kA + 1 ≤ nComplete emb → ∀ l ∈ order.getD (List.range emb.length),
+          missingAt emb l = false →
+          ∃ cs : List Nat, cs.Nodup ∧ cs.length = kA ∧ ∀ c ∈ cs, c < emb.length
+            ∧ missingAt emb c = false
+            ∧ entry (maskIf true emb (bmTab emb.length R)) l c = some true)) := by
+  obtain ⟨hP, hT, _⟩ := adaptive_object_eq m series S emb norm mv false e kA order sn hS hE
+  rw [hT] at hsn
+  rw [hP]
+  refine ⟨fun h => ?_, fun h => ?_⟩
+  · subst h
+    obtain ⟨R, h1, h2, h3, h4⟩ := adaptive_plot_any_argsort m emb kA order sn
+      (by simpa [adaptiveDist] using hsn) ho
+    exact ⟨R, by rw [(adaptive_plot_mv_off m emb kA order sn).1, h1], h2, h3, h4⟩
+  · subst h
+    obtain ⟨R, h1, h2, h3, h4⟩ := adaptive_plot_missing_values m emb kA order sn hsn ho
+    exact ⟨R, by rw [h1], h2, h3, h4⟩
+
+/-- non-vacuity at the object level: `RecurrencePlot([0, nan, 1, 3], metric="supremum",
+missing_values=True, adaptive_neighborhood_size=1)` (the input of repair `faa7910`): the table
+test of the driver is the `argsortOK` shown `= true` in the example after
+`adaptive_plot_missing_values`, and the stored matrix leaves the NaN state without recurrence -/
+example :
+    adaptiveTableOK .supremum [[some 0], [none], [some 1], [some 3]] false true none
+        [[0, 2, 3, 1], [0, 1, 2, 3], [2, 0, 3, 1], [3, 2, 0, 1]]
+      = argsortOK (adaptiveDist .supremum [[some 0], [none], [some 1], [some 3]] true)
+        [[0, 2, 3, 1], [0, 1, 2, 3], [2, 0, 3, 1], [3, 2, 0, 1]]
+    ∧ (match adaptiveObjPlot .supremum [[some 0], [none], [some 1], [some 3]] false true none 1 none
+          [[0, 2, 3, 1], [0, 1, 2, 3], [2, 0, 3, 1], [3, 2, 0, 1]] with
+        | some (.ok p) => (p.N, p.R) | _ => (0, []))
+      = (4, [[false, false, true, true], [false, false, false, false],
+         [true, false, false, true], [true, false, true, false]]) :=
+  ⟨(adaptive_object_eq .supremum _ _ _ false true false none 1 none _ rfl rfl).2.1,
+    by decide +kernel⟩
+
+/-- **`RecurrenceNetwork` on an adaptive plot, nothing deleted** (the setter, or an object
+without `missing_values`): for every table the adjacency is the stored `R` without its
+diagonal, `R` is the plot's matrix and the network has as many nodes as `R` has rows -/
+theorem adaptive_object_network_spec (m : Metric) (series S emb : List (List V))
+    (norm mv setter : Bool) (e : Option (Nat × Nat)) (kA : Nat) (order : Option (List Nat))
+    (sn : List (List Nat)) (p : Plot)
+    (hS : storedSeries series norm = some S) (hE : stateVectors S e = .ok emb)
+    (hp : adaptivePlotMV m emb kA order sn mv = .ok p) (hd : (mv && !setter) = false) :
+    ∃ q : Net, adaptiveObjNet setter m series norm mv e kA order sn = some (.ok q)
+      ∧ q.N = p.R.length ∧ q.R = p.R ∧ p.R.length = emb.length
+      ∧ ∀ i j, i < p.R.length → j < p.R.length →
+          entry q.A i j = (entry p.R i j).map fun b => b && decide (i ≠ j) := by
+  obtain ⟨_, _, hN⟩ := adaptive_object_eq m series S emb norm mv setter e kA order sn hS hE
+  have hside : p.N = p.R.length ∧ p.R.length = emb.length := by
+    simp only [adaptivePlotMV] at hp
+    split at hp
+    · cases hp
+    · cases hR : adaptive emb.length kA sn ((order.getD (List.range emb.length)).take emb.length) with
+      | none => simp [hR, Res.ofOption, Res.bind] at hp
+      | some R =>
+        simp only [hR, Res.ofOption, Res.bind, Res.ok.injEq] at hp
+        subst hp
+        simp [maskIf_length, bmTab, tab_length]
+  have hst : (if setter then ArithC07.rnStrideAdaptive p.N else ArithC07.rnStride p.N) = p.N + 1 := by
+    cases setter <;> simp [(strides_eq p.N).1, (strides_eq p.N).2.2.2.2.2.1]
+  have hnet : adaptiveNetOf setter mv emb p
+      = networkOf p (if setter then ArithC07.rnStrideAdaptive p.N else ArithC07.rnStride p.N) := by
+    simp [adaptiveNetOf, networkOf, hd]
+  obtain ⟨h1, h2, h3⟩ := network_of_plot p _ hside.1 hst
+  refine ⟨adaptiveNetOf setter mv emb p, by rw [hN, hp]; rfl, ?_, ?_, hside.2, ?_⟩
+  · rw [hnet]; exact h1
+  · rw [hnet]; exact h2
+  · rw [hnet]; exact h3
+
+/-- non-vacuity: the network of `[0, 0, 1, 0]` embedded with `dim = 2`, `tau = 1`, `kA = 1`,
+setter with processing order `2, 0, 1` on one of its two argsort tables -/
+example :
+    (match adaptiveObjNet true .manhattan [[some 0], [some 0], [some 1], [some 0]] false false
+        (some (2, 1)) 1 (some [2, 0, 1]) [[0, 2, 1], [1, 0, 2], [2, 1, 0]] with
+      | some (.ok q) => (q.N, q.A, q.R) | _ => (0, [], []))
+      = (3, [[false, true, true], [true, false, true], [true, true, false]],
+          [[false, true, true], [true, false, true], [true, true, false]]) := by
   decide +kernel
 
 end Pyunicorn.Recurrence
